@@ -23,8 +23,8 @@ META = dict(
     engine="E1-enum", level="exploration",
     technique="exhaustive enumeration of cdefs (all ordered selections of <= k declarations from an alphabet) with a "
               "differential oracle: in-line FFI vs the imported emit_python_code() module",
-    text="Every cdef of <= 2 distinct items (in both orders) over a 62-item declaration alphabet, and in the thorough "
-         "tier every cdef of <= 3 items over its 33-item core, is given to an in-line FFI and to emit_python_code(); "
+    text="Every cdef of <= 2 distinct items (in both orders) over a 65-item declaration alphabet (each item preceded by the items it depends on), and in the thorough "
+         "tier every cdef of <= 3 items over its 31-item core, is given to an in-line FFI and to emit_python_code(); "
          "the imported module must agree on every typedef/struct/union/enum/function-pointer type (same object when no "
          "struct/union/enum is involved; otherwise kind, name, size, alignment, every field with offset, bit position "
          "and width, enum base type and enumerators), on every integer constant, on list_types(), and after dlopen() of "
